@@ -3,7 +3,7 @@ from vt.props import common
 from vt.props.common import call, report_failure, selfcheck
 from vt import adapt
 from vt.ref import rx, fa
-from vt.gen import rxg
+from vt.gen import rxg, fag
 from vt.mon import contracts
 
 PROP = 'C05'
@@ -80,7 +80,7 @@ def check_case(rec, case):
     selfcheck(rec, all((w in D) == rx.matches_deriv(t, w) for w in words), t)
     r = adapt.build_rx(t)
     extra = ['c', 'ac', 'ca'] if n >= 2 else ['c']
-    for w in ([] if case.get('simplify_only') else words + extra):
+    for w in ([] if case.get('simplify_only') else words + extra + list(case.get('long_words', ()))):
         o = call(ra.regexp_accepts_word, r, w, _cpu=case.get('cpu', 20))
         if o.kind == 'timeout':
             rec.inconc('matcher exceeded the CPU guard (exponential on nested stars)')
@@ -157,6 +157,14 @@ def gen_cases(rec, rng, tier):
                 continue
             n = 6 if sz <= 12 else (4 if sz <= 40 else 3)
             yield {'cls': 'random_%s' % (bias or 'plain'), 'tree': t, 'n': n, 'cpu': 2}
+            if sz <= 14:
+                # long words (all words up to n stop at length 6): sampled, and words of the language itself pumped up
+                lw = fag.long_words(rng, 'ab', 6, lengths=(9, 10, 12, 16, 17, 24))
+                D6 = sorted(rx.denot(t, 4))
+                for w0 in D6[-3:]:
+                    if w0:
+                        lw.append((w0 * 12)[:rng.choice([9, 11, 16])])
+                yield {'cls': 'random_%s_long_words' % (bias or 'plain'), 'tree': t, 'n': 1, 'cpu': 2, 'long_words': lw}
     for op in '+.':
         for left in (True, False):
             for d in (5, 30, 120):
